@@ -1,6 +1,7 @@
 package main
 
 import (
+	"sync"
 	"strconv"
 	"fmt"
 	"go/token"
@@ -144,6 +145,13 @@ func descValue(v ssa.Value, depth int) string {
 				}
 				if len(stored) == 1 {
 					return descValue(stored[0], depth+1)
+				}
+			}
+			// an unexported package-level variable set once, in init, to the result of a call
+			// (var fpMod = fr.Modulus()) is that call
+			if g, ok := x.X.(*ssa.Global); ok {
+				if v := globalInitCall(g); v != nil && depth < 6 {
+					return descValue(v, depth+1)
 				}
 			}
 			return descValue(x.X, depth)
@@ -861,4 +869,45 @@ func RequireFactsAtInstr(c *Ctx, p *Program, rule string, fn *ssa.Function, targ
 		sort.Strings(ms)
 		c.Ob(rule, pkg, fk, construct+":"+r.Name, pos, ok, fmt.Sprintf("%s: %s is reachable without %s (pattern %q, matching statements %v)", fk, construct, r.Name, r.Pat, ms))
 	}
+}
+
+var (
+	globalInitMu   sync.Mutex
+	globalInitMemo = map[*ssa.Global]ssa.Value{}
+)
+
+// globalInitCall: for an unexported global written exactly once in the whole package, by the
+// package initialiser, with the result of a call: that call. nil otherwise.
+func globalInitCall(g *ssa.Global) ssa.Value {
+	if g.Pkg == nil || g.Object() == nil || g.Object().Exported() {
+		return nil
+	}
+	globalInitMu.Lock()
+	defer globalInitMu.Unlock()
+	if v, ok := globalInitMemo[g]; ok {
+		return v
+	}
+	var val ssa.Value
+	n := 0
+	for _, f := range pkgFunctions(g.Pkg) {
+		for _, b := range f.Blocks {
+			for _, in := range b.Instrs {
+				st, ok := in.(*ssa.Store)
+				if !ok || st.Addr != ssa.Value(g) {
+					continue
+				}
+				n++
+				if f.Name() == "init" {
+					if c, isCall := st.Val.(*ssa.Call); isCall {
+						val = c
+					}
+				}
+			}
+		}
+	}
+	if n != 1 {
+		val = nil
+	}
+	globalInitMemo[g] = val
+	return val
 }
